@@ -1,51 +1,33 @@
 import Tyme.Model.RealEph
+import Tyme.Facts.Preds
+import Tyme.Gen.MonthsFact0
+import Tyme.Gen.MonthsFact1
+import Tyme.Gen.MonthsFact2
+import Tyme.Gen.MonthsFact3
 /-!
 Table facts about the lunar-month data extracted from /repo (Gen/Months*): decided by kernel
-evaluation over ALL 10,000 lunar years (complete enumeration), then lifted to statements about `realEph`.
+evaluation over ALL 10,000 lunar years (complete enumeration; part by part in Gen/MonthsFact*.lean, glued here).
 The five exception years are the D4 junctions (known findings, see known_findings.json).
 -/
 namespace Tyme
-open Packed
+open Packed Gen
 
-/-- months i..i+n-1 of year record r: first = cur, abut, 29/30 days -/
-def slotsOK (r : Nat) : Nat → Nat → Nat → Bool
-  | 0, _, _ => true
-  | n+1, i, cur =>
-    Rec.sFirst (Rec.slot r i) == cur && (Rec.sLen (Rec.slot r i) == 29 || Rec.sLen (Rec.slot r i) == 30) &&
-      slotsOK r n (i + 1) (cur + Rec.sLen (Rec.slot r i))
+/-- TABLE FACT (complete enumeration, 10,000 year records / 123,684 lunations). -/
+theorem years_tile_fact : adjRec 512 yearPair Gen.monthsChunks = true := by
+  rw [adjRec_def]
+  unfold Gen.monthsChunks
+  simp only [adjChunks_append, months_yearPair_part0, months_yearPair_part1, months_yearPair_part2, months_yearPair_part3,
+    months_len_part0, months_len_part1, months_len_part2, records_append, List.length_append, Nat.zero_add, Nat.reduceAdd]
+  rfl
 
-def yearEnd (r : Nat) : Nat :=
-  Rec.sFirst (Rec.slot r (Rec.yCount r - 1)) + Rec.sLen (Rec.slot r (Rec.yCount r - 1))
+/-- TABLE FACT: every year record has leap month ≤ 12 and 12 or 13 months (no exceptions). -/
+theorem years_leap_fact : allRec 512 yearLeapOK Gen.monthsChunks = true := by
+  unfold allRec Gen.monthsChunks
+  simp only [allChunks_append, months_yearLeapOK_part0, months_yearLeapOK_part1, months_yearLeapOK_part2, months_yearLeapOK_part3,
+    months_len_part0, months_len_part1, months_len_part2, records_append, List.length_append, Nat.zero_add, Nat.reduceAdd, Bool.and_self]
 
-def yearInner (r : Nat) : Bool :=
-  decide (Rec.yLeap r ≤ 12) && Rec.yCount r == (if Rec.yLeap r > 0 then 13 else 12) &&
-  slotsOK r (Rec.yCount r) 0 (Rec.sFirst (Rec.slot r 0))
-
-def yearLenOK (n : Nat) : Bool := (decide (353 ≤ n) && decide (n ≤ 355)) || (decide (383 ≤ n) && decide (n ≤ 385))
-
-/-- lunar years whose own months or whose junction to the next year do not tile (D4) -/
-def badYear (y : Nat) : Bool := y == 8 || y == 23 || y == 24 || y == 236 || y == 239
-
-def yearPair (y a b : Nat) : Bool :=
-  (yearInner a && Rec.sFirst (Rec.slot b 0) == yearEnd a && yearLenOK (yearEnd a - Rec.sFirst (Rec.slot a 0)))
-  || badYear y
-
--- TABLE FACT (complete enumeration, 10,000 year records / 123,684 lunations).
-set_option maxRecDepth 100000 in
-theorem years_tile_fact : adjRec 512 yearPair Gen.monthsChunks = true := by decide +kernel
-
--- TABLE FACT: every year record has leap month ≤ 12 and 12 or 13 months (no exceptions).
-set_option maxRecDepth 100000 in
-theorem years_leap_fact : allRec 512 (fun _ r => decide (Rec.yLeap r ≤ 12) && Rec.yCount r == (if Rec.yLeap r > 0 then 13 else 12)) Gen.monthsChunks = true := by
-  decide +kernel
-
-theorem records_length (w : Nat) : ∀ cs : List (Nat × Nat), (records w cs).length = (cs.map (·.1)).sum := by
-  intro cs; induction cs with
-  | nil => rfl
-  | cons c cs ih => simp [records, unpack_length, ih]
-
-set_option maxRecDepth 100000 in
 theorem yearRecs_length : yearRecs.length = 10000 := by
-  unfold yearRecs; rw [records_length]; decide +kernel
+  unfold yearRecs Gen.monthsChunks
+  simp only [records_append, List.length_append, months_len_part0, months_len_part1, months_len_part2, months_len_part3]
 
 end Tyme
